@@ -23,7 +23,9 @@ RULE = (
     "(zone, local date-time) with local values generated from the zone's transitions: for every transition T with "
     "offsets (o1, o2): T+o1+d and T+o2+d for d in {0, +/-1ns, +/-1s, +/-1h, +/-|o2-o1|/2, +/-1day}; quick covers all "
     "stored transitions of every canonical zone plus sampled tail years, thorough every transition through 2100, every 10th year after that and the last five years; "
-    "plus Hypothesis-generated uniform local date-times, fixed zones and non-ISO calendars. Oracle = set of "
+    "plus Hypothesis-generated uniform local date-times, fixed zones and non-ISO calendars; every stock resolver "
+    "(all 12 ambiguous x skipped combinations at gaps/overlaps) through resolve_local and in_zone; start-of-day "
+    "around every transition, also in rotating non-ISO calendars. Oracle = set of "
     "intervals iv with iv.start+wall <= L < iv.end+wall. Non-trivial: L within one day of a transition or count != 1; "
     "distinct = (zone, L) by construction per transition probe, case hash otherwise."
 )
